@@ -67,7 +67,31 @@ def main():
                 rules = sorted({l.strip().split()[1] for l in o.splitlines() if l.strip().startswith("rule ")})
                 fired[p] = {"rc": rc, "rules": rules, "msg": [l for l in o.splitlines() if "ANALYSIS-ERROR" in l][:1]}
         out["fired"] = fired
-        print(json.dumps(out, indent=1))
+        confirmed = out.get("demo_clean_rc") == 0 and out.get("demo_patched_rc", 0) != 0 and out["suite"] and " failed" not in out["suite"][0].replace("xfailed", "") and "224 passed" in out["suite"][0]
+        out["confirmed"] = bool(confirmed)
+        if "--keep" in sys.argv and confirmed:
+            name = sys.argv[sys.argv.index("--keep") + 1]
+            prop = sys.argv[sys.argv.index("--target") + 1]
+            dest = Path("/verif/seeded") / name
+            dest.mkdir(parents=True, exist_ok=True)
+            (dest / "patch.diff").write_text(patch.read_text())
+            (dest / "demo.py").write_text(demo.read_text())
+            notes = patch.with_name(patch.name.replace("patch_", "notes_").replace(".diff", ".md"))
+            meta = {
+                "property": prop,
+                "origin": "independent sub-agent given only the property text and a scratch worktree (nothing from /verif)",
+                "needs_to_manifest": notes.read_text() if notes.exists() else "",
+                "confirmed_by": {
+                    "suite_with_change": out["suite"][0],
+                    "demo_on_clean_tree": "exit 0",
+                    "demo_with_change": f"exit {out['demo_patched_rc']}: " + " | ".join(out["demo_patched_tail"])[:300],
+                    "how": "tools/eval_seed.py: fresh scratch worktree of /repo HEAD, demo, git apply, full suite, demo, quick checks with --root <scratch>",
+                },
+                "detected_by": {p: v["rules"] or v["msg"] for p, v in fired.items()},
+                "detected": bool(fired.get(prop, {}).get("rc") == 1),
+            }
+            (dest / "meta.json").write_text(json.dumps(meta, indent=1))
+        print(json.dumps({k: out[k] for k in ("confirmed", "suite", "demo_clean_rc", "demo_patched_rc", "fired") if k in out}))
         return 0
     finally:
         sh(f"git -C /repo worktree remove --force {wt}")
